@@ -137,6 +137,9 @@ class FileSystemLoader(BaseLoader):
         loop = asyncio.get_running_loop()
         source_path = await loop.run_in_executor(None, self.resolve_path, template_name)
         source, mtime = await loop.run_in_executor(None, self._read, source_path)
+        # A template loaded here can be cached and later checked by the synchronous
+        # `is_up_to_date()`, which can not await, so `uptodate` must not be a coroutine
+        # function. `is_up_to_date_async()` accepts a plain callable.
         return TemplateSource(
-            source, str(source_path), partial(self._uptodate_async, source_path, mtime)
+            source, str(source_path), partial(self._uptodate, source_path, mtime)
         )
